@@ -1,8 +1,10 @@
 import Uhppote.Model.Api
+import Uhppote.Gen.Ops
 import Uhppote.Spec.Api
 import Uhppote.Gen.Messages
 import Uhppote.Props.C18
 import Uhppote.Gen.Source
+import Uhppote.Gen.Driver
 /-! # C01 — every request on the wire is exactly the protocol encoding of the call
 
 For each of the 31 `sendto`-based operations (GetDevices, which has no controller argument, is
@@ -16,6 +18,7 @@ set_option linter.unusedSimpArgs false
 set_option maxRecDepth 4096
 namespace Uhppote.Props.C01
 open Uhppote Uhppote.Model Uhppote.Model.Api Uhppote.Spec.Codec
+open Uhppote.Gen.Ops (ops findOp)
 
 /-- T1 obligation: every message layout in the sources today is the protocol table's -/
 theorem C01_layouts : Gen.Messages.all = Spec.Protocol.all := by decide
@@ -129,5 +132,34 @@ theorem C01_no_package_state : Gen.Source.packageVars = [
     "encoding/UTO311-L0x/UT0311-L0x.go:var vre", "types/card-format.go:var w26", "types/card-format.go:var wAny",
     "uhppote/UT0311.go:var NOTIMEOUT", "uhppote/UT0311.go:var guard", "uhppote/errors.go:var ErrIncorrectController",
     "uhppote/errors.go:var ErrInvalidCard", "uhppote/errors.go:var ErrInvalidListenerAddress"] := by decide
+
+/-- below the driver interface: with the uses of the request parameter regenerated from
+    uhppote/UT0311.go (passed to the socket write and to the debug dump, `len`, single-byte reads —
+    never assigned through, sliced into another name or handed to anything else) and the body of
+    `codec.Dump` calling nothing but `fmt` and `len`, the bytes written to the socket are the bytes
+    the operation marshalled, whatever the debug flag -/
+theorem C01_driver_passes_request (request : Bytes) :
+    Driver.onWire (Driver.requestUntouched Gen.Driver.requestUses Gen.Driver.dumpFacts) request = some request := by
+  have h : Driver.requestUntouched Gen.Driver.requestUses Gen.Driver.dumpFacts = true := by decide
+  simp [Driver.onWire, h]
+
+/-- … hence the bytes on the wire are the protocol image of the call -/
+theorem C01_wire_image : ∀ op ∈ ops, ∃ sop L, Spec.Api.findOp op.name = some sop ∧
+    Gen.Messages.all.lookup op.request = some L ∧
+    ∀ args img, Spec.Api.requestImage sop args = some img →
+      (match marshal Gen.codecFacts C12.genTables L (op.build args) with
+       | .ok m => Driver.onWire (Driver.requestUntouched Gen.Driver.requestUses Gen.Driver.dumpFacts) m
+       | _ => none) = some img := by
+  intro op hop
+  obtain ⟨sop, L, h1, h2, h3⟩ := C01_request_image op hop
+  refine ⟨sop, L, h1, h2, ?_⟩
+  intro args img himg
+  rw [h3 args img himg]
+  exact C01_driver_passes_request img
+
+/-- the premise is not vacuous and the fact matters: a method that hands the request to anything
+    else (a "masking" helper, say) leaves the wire bytes unknown to the model -/
+example : Driver.onWire (Driver.requestUntouched
+    [("Broadcast", ["arg:connection.WriteToUDP", "arg:u.dump", "index-read"]), ("BroadcastTo", []), ("SendUDP", []), ("SendTCP", [])] []) [1, 2, 3] = none := by decide
 
 end Uhppote.Props.C01
